@@ -105,8 +105,15 @@ def run(ctx):
         # F16: every Ok of the by-slot roll-back has removed something - above the closest stored block, or (no stored block at or below the
         # slot) everything: the pinned tree returned Ok without touching the store in that case
         DELQ = [Q + 'cardano_block::delete_cardano_block_and_transactions::DeleteCardanoBlockAndTransactionQuery::*']
-        removers = [RB] + sorted({getattr(h, '_orig', h).root().name for h in ctx.closure_fns(g, depth=2)
-                                  if getattr(h, '_orig', h).root() is not getattr(g, '_orig', g).root() and ctx.closure_sites(h, DELQ, depth=2)})
+        # the steps the by-slot function itself calls (not the helpers of those steps)
+        direct = set()
+        for c in g.logic().body.calls():
+            for n in c.names():
+                for h in ws.by_name.get(n, []):
+                    if h.kind in ('fn', 'assoc_fn') and h.unit.tag == 'lib' and h.root().name != RB and h.root() is not getattr(g, '_orig', g).root() \
+                            and ctx.closure_sites(h, DELQ, depth=2):
+                        direct.add(h.root().name)
+        removers = [RB] + sorted(direct)
         ctx.r1('a', RBS, Sink('a removal (by block number, or of everything)', removers, 'ok'), label='roll-back by slot: every Ok return has passed a removal')
         # the remove-everything arm is transactional and covers the three tables too
         for hn in removers:
